@@ -6,7 +6,8 @@
    from the initial Lua 5.3 state, with any sufficiently large fuel, prints the same lines and ends the
    same way.
 
-   Structure: the global assignment V<pv> = print; the body of `start` (fbody_sim, on top of SimStmt.P_all:
+   Structure: the global assignment V<pv> = print; the global definitions at chunk level (globals_sim, one
+   P_exec each); `local function V<sv>` (rel_define_fun); the body of `start` (fbody_sim, on top of SimStmt.P_all:
    expressions, statements, statement lists and if-branch bodies together); fragment programs have no `ret`
    (NoRet.NR_all), a break/continue that reaches the body of `start` makes the reference run OStuck (outside
    good_final), and the interpreter never stops with ODone (SemSane); program_sim for any Lua state with
@@ -20,6 +21,7 @@ From Sylt Require Import Pres.Frag.
 From Sylt Require Import Pres.SimDefs Pres.SimOps Pres.SimVals.
 From Sylt Require Import Pres.SimExpr Pres.LowerShape Pres.SimSteps Pres.SimExprProofs Pres.SimStmt Pres.NoExit Pres.NoRet.
 From Sylt Require Pres.SemSane.
+From Sylt Require Import Pres.RunEq.
 From Sylt Require Import Lua.LuaAst Lua.LuaMap Lua.LuaNum Lua.LuaProofs Lua.LuaCore.
 Import ListNotations.
 Local Open Scope N_scope.
@@ -227,6 +229,103 @@ Proof.
     + right. eauto.
     + rewrite (r_trace _ _ _ _ _ _ _ Hrel2). symmetry. apply Hx3.
 Qed.
+(* the global definitions at chunk level: run_outer executes them one after the other with the same fuel *)
+Lemma globals_sim n g : forall gs k ctx c cs c' e st r st' sc sc' l E stL F,
+  SyltSem.run_outer n e gs st = (r, st') ->
+  mapM (fun s => statement g s ctx) gs c = Ok (cs, c') ->
+  forallb is_plain_def gs = true ->
+  frag_stmts pv sv bound k sc gs = Some sc' -> ucovers u (concat cs) -> ctx_ok l F E c c' -> rel sc e st E stL ->
+  interesting r ->
+  exists b l', cshape u l (concat cs) b l' c c' /\ stmt_post pv bound ctx sc sc' e F c c' E stL b r st'.
+Proof.
+  pose proof (proj1 (proj2 (P_all pv sv bound u n))) as IHs.
+  induction gs as [|s ss IHss]; intros k ctx c cs c' e st r st' sc sc' l E stL F Hev Hm Hpl Hfrag Hu Hctx Hrel Hint.
+  - destruct (mapM_nil_ok _ _ _ _ Hm) as [-> ->]. destruct k as [|k]; [discriminate|]. cbn in Hfrag. inversion Hfrag; subst sc'.
+    cbn in Hev. inversion Hev; subst r st'.
+    eexists _, _. split; [apply cshape_nil|]. cbn [stmt_post]. exists E, stL, F.
+    split; [|split; [apply sext_refl | apply incl_refl]].
+    split; [apply XS_nil|]. split; [apply wframe_refl|]. split; [exact Hrel | split; [apply F_new_refl | apply keep_refl]].
+  - destruct k as [|k]; [discriminate|]. rewrite frag_stmts_cons in Hfrag.
+    destruct (frag_stmt pv sv bound k sc s) as [sc1|] eqn:Hfs; [|discriminate Hfrag].
+    cbn [forallb] in Hpl. apply andb_prop in Hpl as [Hps Hpl].
+    apply mapM_cons_ok in Hm as (y & c1 & ys & Hy & Hys & ->). cbn [concat] in *.
+    apply ucovers_app in Hu as [Huy Huys].
+    destruct (L_stmt_all pv sv bound u g k s ctx c y c1 sc sc1 l Hy Hfs) as (_ & _ & (_ & Hc1 & _)).
+    assert (Hrest : forall l0, exists b2 l2, cshape u l0 (concat ys) b2 l2 c1 c')
+      by (intros l0; eapply (L_stmts_all pv sv bound u); eassumption).
+    destruct (Hrest l) as (_ & _ & (_ & Hc1' & _)).
+    assert (Hctxs : ctx_ok l F E c c1) by (eapply ctx_sub; [exact Hctx | lia | lia]).
+    assert (Hstep : SyltSem.run_outer n e (s :: ss) st =
+                    SyltSem.bind (SyltSem.exec n e s) (fun e' => SyltSem.run_outer n e' ss) st)
+      by (destruct s; try discriminate Hps; reflexivity).
+    rewrite Hstep in Hev. clear Hstep. unfold SyltSem.bind at 1 in Hev.
+    destruct (SyltSem.exec n e s st) as [[e1|o|cc] st1] eqn:He1.
+    2: { inversion Hev; subst.
+         destruct (IHs g k s ctx c y c1 e st _ st' sc sc1 l E stL F He1 Hy Hfs Huy Hctxs Hrel Hint) as (b1 & l1 & Hs1 & Hp1).
+         destruct (Hrest l1) as (b2 & l2 & Hs2).
+         eexists _, _. split; [eapply cshape_app; eassumption|].
+         cbn [stmt_post] in *. eapply exit_app; [exact Hp1 | lia]. }
+    2: { inversion Hev; subst.
+         destruct (IHs g k s ctx c y c1 e st _ st' sc sc1 l E stL F He1 Hy Hfs Huy Hctxs Hrel Hint) as (b1 & l1 & Hs1 & Hp1).
+         destruct (Hrest l1) as (b2 & l2 & Hs2).
+         eexists _, _. split; [eapply cshape_app; eassumption|].
+         cbn [stmt_post] in *. eapply exit_app; [exact Hp1 | lia]. }
+    destruct (IHs g k s ctx c y c1 e st _ st1 sc sc1 l E stL F He1 Hy Hfs Huy Hctxs Hrel I)
+      as (b1 & l1 & Hs1 & E1 & stL1 & F1 & Hok1 & Hse1 & Hinc1).
+    pose proof Hok1 as (Hx1 & _ & Hrel1 & _).
+    assert (Hctx1 : ctx_ok l1 F1 E1 c1 c') by (eapply (ctx_afterS pv bound u); eassumption).
+    destruct (IHss k ctx c1 ys c' e1 st1 r st' sc1 sc' l1 E1 stL1 F1 Hev Hys Hpl Hfrag Huys Hctx1 Hrel1 Hint)
+      as (b2 & l2 & Hs2 & Hpost).
+    eexists _, _. split; [eapply cshape_app; eassumption|].
+    destruct r as [e2|o|cc].
+    + destruct Hpost as (E2 & stL2 & F2 & Hok2 & Hse2 & Hinc2).
+      exists E2, stL2, F2. split; [eapply (okstepS_trans pv bound); eassumption|].
+      split; [eapply sext_trans; eassumption | eapply incl_tran; eassumption].
+    + cbn [stmt_post] in *. eapply (exit_pre pv bound ctx sc sc1 e e1 st st1); eassumption.
+    + cbn [stmt_post] in *. eapply (exit_pre pv bound ctx sc sc1 e e1 st st1); eassumption.
+Qed.
+
+(* `local function V<sv>() b end` at chunk level; SyltSem: a new cell that holds the new closure *)
+Lemma rel_define_fun sc e st E stL body b :
+  rel sc e st E stL -> ~ In sv sc -> sv <> pv -> sv < bound ->
+  rel sc (start_env sv e st) (start_state sv body e st)
+      (sset (fmt_var sv) (s_ncell stL) E)
+      (set_cell (snd (alloc_closure (snd (alloc_cell stL VNil)) (mkClosure (sset (fmt_var sv) (s_ncell stL) E) [] b)))
+                (s_ncell stL) (VFun (s_nclo stL))).
+Proof.
+  intros [Hv Hb Hi Hp Hpb HpE HpG Hwf Ht Hli] Hnin Hnpv Hsvb.
+  assert (Hold : forall p, (p < s_ncell stL)%positive ->
+            get_cell (set_cell (snd (alloc_closure (snd (alloc_cell stL VNil)) (mkClosure (sset (fmt_var sv) (s_ncell stL) E) [] b)))
+                               (s_ncell stL) (VFun (s_nclo stL))) p = get_cell stL p).
+  { intros p Hp'. rewrite get_cell_set_other by lia.
+    change (get_cell (snd (alloc_cell stL VNil)) p = get_cell stL p). apply get_cell_alloc_old. exact Hp'. }
+  unfold start_env, start_state. constructor.
+  - intros w Hw. destruct (Hv w Hw) as (cc & x & p & H1 & H2 & H3 & H4).
+    assert (Hne : w <> sv) by (intros ->; contradiction).
+    exists cc, x, p. cbn [SyltSem.lookup SyltSem.cells]. destruct (N.eqb_spec sv w); [congruence|].
+    splits; [exact H1 | apply nth_error_app_old; exact H2 | rewrite sget_sset_var by exact Hne; exact H3 |].
+    rewrite Hold; [exact H4 | eapply wf_alloc; eassumption].
+  - exact Hb.
+  - intros v1 v2 cc H1 H2. cbn [SyltSem.lookup].
+    destruct (N.eqb_spec sv v1) as [->|]; [contradiction|]. destruct (N.eqb_spec sv v2) as [->|]; [contradiction|].
+    apply Hi; assumption.
+  - destruct Hp as (cp & Hlkp & Hnthp & Hdist).
+    exists cp. cbn [SyltSem.lookup SyltSem.cells]. destruct (N.eqb_spec sv pv); [congruence|].
+    splits; [exact Hlkp | apply nth_error_app_old; exact Hnthp |].
+    intros w Hw. destruct (N.eqb_spec sv w) as [->|]; [contradiction|]. apply Hdist. exact Hw.
+  - exact Hpb.
+  - rewrite sget_sset_var by (intros Heq; apply Hnpv; symmetry; exact Heq). exact HpE.
+  - eapply glob_frame; [|exact HpG]. reflexivity.
+  - pose proof (wfenv_local E stL sv VNil Hwf) as [HV Hin Ha]. constructor; [exact HV | exact Hin |].
+    intros x p H. specialize (Ha x p H). cbn in *. exact Ha.
+  - exact Ht.
+  - apply linv_set_cell. destruct Hli as [Hd Hg [Hc] Hn]. constructor.
+    + exact Hd.
+    + exact Hg.
+    + constructor. unfold alloc_closure, alloc_cell. cbn [snd s_clos s_nclo]. rewrite pget_pset_other; [exact Hc | lia].
+    + unfold alloc_closure, alloc_cell. cbn [snd s_nclo]. lia.
+Qed.
+
 End Sim.
 Section FBodyShape.
 Variable pv : N.
@@ -279,24 +378,57 @@ Proof. vm_compute. reflexivity. Qed.
 Lemma pre_ncell_env : forall x, sget x (PLeaf : env) = None.
 Proof. intros x. unfold sget. destruct (pos_of_string x); reflexivity. Qed.
 
+
+(* the variables a statement list adds to the scope are new ones, different from print and start *)
+Lemma frag_stmt_scope pv sv bound k sc s sc' :
+  frag_stmt pv sv bound k sc s = Some sc' -> sc' = sc \/ exists var, sc' = var :: sc /\ fresh_id pv sv bound sc var = true.
+Proof.
+  intros H. destruct k as [|k]; [discriminate|]. destruct s; try discriminate H.
+  - destruct target; try discriminate H. rewrite frag_stmt_assign in H.
+    destruct (assign_op op && memN var sc && frag_expr pv sv bound k sc value)%bool; inversion H; auto.
+  - destruct (frag_stmt_def _ _ _ _ _ _ _ _ _ _ _ _ H) as (_ & Hf & _ & ->). right. eauto.
+  - rewrite frag_stmt_loop in H.
+    destruct (noexit_expr k condition && frag_expr pv sv bound k sc condition && is_some (frag_stmts pv sv bound k sc body))%bool; inversion H; auto.
+  - inversion H; auto.
+  - inversion H; auto.
+  - rewrite frag_stmt_block in H. destruct (frag_stmts pv sv bound k sc statements); inversion H; auto.
+  - rewrite frag_stmt_sexpr in H. destruct (frag_expr pv sv bound k sc value); inversion H; auto.
+Qed.
+
+Lemma frag_stmts_scope pv sv bound : forall ss k sc sc',
+  frag_stmts pv sv bound k sc ss = Some sc' -> forall v, In v sc' -> In v sc \/ v <> sv.
+Proof.
+  induction ss as [|s ss IH]; intros k sc sc' H v Hv.
+  - destruct k; [discriminate|]. cbn in H. inversion H; subst. left. exact Hv.
+  - destruct k as [|k]; [discriminate|]. rewrite frag_stmts_cons in H.
+    destruct (frag_stmt pv sv bound k sc s) as [sc1|] eqn:Hs; [|discriminate H].
+    destruct (IH k sc1 sc' H v Hv) as [Hin|Hne]; [|right; exact Hne].
+    destruct (frag_stmt_scope _ _ _ _ _ _ _ Hs) as [->|(var & -> & Hf)]; [left; exact Hin|].
+    destruct Hin as [<-|Hin]; [|left; exact Hin].
+    right. unfold fresh_id in Hf. frag_split Hf. apply negb_true_iff, N.eqb_neq in Hfr0. exact Hfr0.
+Qed.
+
 Lemma frag_inv k r :
   frag k r = true ->
-  exists name pv kd t sp nm sv kd' t' fname ret body pure fsp dsp sc',
-    r_stmts r = [SExternalDefinition name pv kd t sp; SDefinition nm sv kd' t' (EFunction fname [] ret body pure fsp) dsp] /\
+  exists name pv kd t sp gs nm sv kd' t' fname ret body pure fsp dsp scg sc',
+    r_stmts r = SExternalDefinition name pv kd t sp :: gs ++ [SDefinition nm sv kd' t' (EFunction fname [] ret body pure fsp) dsp] /\
     name = "print"%string /\ IR.find_start (Resolved.r_vars r) = Some sv /\ pv <> sv /\
     pv < N.of_nat (length (Resolved.r_vars r)) + 1 /\ sv < N.of_nat (length (Resolved.r_vars r)) + 1 /\
-    frag_stmts pv sv (N.of_nat (length (Resolved.r_vars r)) + 1) k [] body = Some sc'.
+    forallb is_plain_def gs = true /\
+    frag_stmts pv sv (N.of_nat (length (Resolved.r_vars r)) + 1) k [] gs = Some scg /\
+    frag_stmts pv sv (N.of_nat (length (Resolved.r_vars r)) + 1) k scg body = Some sc'.
 Proof.
   unfold frag. intros H.
-  repeat match type of H with
-         | match ?x with _ => _ end = true => destruct x; try discriminate H
-         end.
+  destruct (r_stmts r) as [|s0 rest]; [discriminate H|]. destruct s0; try discriminate H.
+  destruct (split_last rest) as [[gs last]|] eqn:Hsl; [|discriminate H]. apply split_last_app in Hsl. subst rest.
+  destruct last; try discriminate H. destruct value; try discriminate H. destruct params; try discriminate H.
   frag_split H.
-  destruct (frag_stmts var var0 (N.of_nat (length (Resolved.r_vars r)) + 1) k [] body) as [sc'|] eqn:Hb; [|discriminate].
-  apply String.eqb_eq in H. apply negb_true_iff, N.eqb_neq in Hfr2. apply N.ltb_lt in Hfr1, Hfr0.
-  change (Frag.find_start (Resolved.r_vars r)) with (IR.find_start (Resolved.r_vars r)) in Hfr3.
-  destruct (IR.find_start (Resolved.r_vars r)) as [s|] eqn:Hs; [|discriminate]. apply N.eqb_eq in Hfr3. subst s.
-  do 16 eexists. splits; try reflexivity; try eassumption.
+  destruct (frag_stmts var var0 (N.of_nat (length (Resolved.r_vars r)) + 1) k [] gs) as [scg|] eqn:Hg; [|discriminate].
+  destruct (frag_stmts var var0 (N.of_nat (length (Resolved.r_vars r)) + 1) k scg body) as [sc'|] eqn:Hb; [|discriminate].
+  apply String.eqb_eq in H. apply negb_true_iff, N.eqb_neq in Hfr3. apply N.ltb_lt in Hfr2, Hfr1.
+  change (Frag.find_start (Resolved.r_vars r)) with (IR.find_start (Resolved.r_vars r)) in Hfr4.
+  destruct (IR.find_start (Resolved.r_vars r)) as [s|] eqn:Hs; [|discriminate]. apply N.eqb_eq in Hfr4. subst s.
+  do 18 eexists. splits; try reflexivity; try eassumption.
 Qed.
 
 Lemma definition_fun f var name params ret body pure sp ctx :
@@ -305,39 +437,27 @@ Lemma definition_fun f var name params ret body pure sp ctx :
    IR.ret (IFunction var (map (fun p => snd (fst (fst p))) params) :: bc ++ [IEnd])).
 Proof. reflexivity. Qed.
 
-Definition frag_env (pv sv : N) : senv := [(sv, 1%nat); (pv, 0%nat)].
-Definition frag_state (pv sv : N) (body : list Resolved.stmt) : sstate :=
-  SyltSem.mkState [SyltSem.SExt "print"; SyltSem.SClos 0] [] [SyltSem.mkClos [] body (frag_env pv sv)] [].
-
-Lemma run_frag_eq r pv sv kd t sp nm kd' t' fname ret body pure fsp dsp f' :
-  r_stmts r = [SExternalDefinition "print" pv kd t sp; SDefinition nm sv kd' t' (EFunction fname [] ret body pure fsp) dsp] ->
-  IR.find_start (Resolved.r_vars r) = Some sv ->
-  SyltSem.run (S (S f')) r =
-  match SyltSem.block_value (S f') (frag_env pv sv) body (frag_state pv sv body) with
-  | (SyltSem.RVal _, st) => SyltSem.mkRun (rev (SyltSem.trace st)) SyltSem.ODone
-  | (SyltSem.RAbrupt (SyltSem.CReturn _), st) => SyltSem.mkRun (rev (SyltSem.trace st)) SyltSem.ODone
-  | (SyltSem.RStop o, st) => SyltSem.mkRun (rev (SyltSem.trace st)) o
-  | (SyltSem.RAbrupt _, st) => SyltSem.mkRun (rev (SyltSem.trace st)) (SyltSem.OStuck "break/continue outside a loop")
-  end.
+Lemma mapM_app_ok {A B} (f : A -> M B) a b : forall c r c',
+  mapM f (a ++ b) c = Ok (r, c') ->
+  exists ra c1 rb, mapM f a c = Ok (ra, c1) /\ mapM f b c1 = Ok (rb, c') /\ r = ra ++ rb.
 Proof.
-  intros Hstmts Hstart. unfold SyltSem.run. rewrite Hstmts.
-  change (SyltSem.find_start (Resolved.r_vars r)) with (IR.find_start (Resolved.r_vars r)). rewrite Hstart.
-  cbn [SyltSem.run_outer SyltSem.exec SyltSem.eval map].
-  match goal with |- context [SyltSem.bind ?pre ?k (SyltSem.mkState [] [] [] [])] =>
-    assert (Hpre : pre (SyltSem.mkState [] [] [] []) = (SyltSem.RVal (frag_env pv sv), frag_state pv sv body)) by reflexivity;
-    assert (Hrun : SyltSem.bind pre k (SyltSem.mkState [] [] [] []) = k (frag_env pv sv) (frag_state pv sv body)) by (unfold SyltSem.bind at 1; rewrite Hpre; reflexivity)
-  end.
-  rewrite Hrun. clear Hrun Hpre.
-  unfold frag_env at 1. cbn [SyltSem.lookup]. rewrite N.eqb_refl.
-  assert (Happ : SyltSem.bind (SyltSem.read_cell 1) (fun fv : sval => SyltSem.apply (S (S f')) fv []) (frag_state pv sv body) =
-                 match SyltSem.block_value (S f') (frag_env pv sv) body (frag_state pv sv body) with
-                 | (SyltSem.RAbrupt (SyltSem.CReturn v), st') => (SyltSem.RVal v, st')
-                 | (SyltSem.RAbrupt _, st') => (SyltSem.RStop (SyltSem.OStuck "break/continue outside a loop"), st')
-                 | r0 => r0
-                 end) by reflexivity.
-  rewrite Happ.
-  destruct (SyltSem.block_value (S f') (frag_env pv sv) body (frag_state pv sv body)) as [[v|o|[| |v]] st]; reflexivity.
+  induction a as [|x a IH]; intros c r c' H.
+  - exists [], c, r. splits; [reflexivity | exact H | reflexivity].
+  - cbn [app] in H. apply mapM_cons_ok in H as (y & c2 & ys & Hy & Hys & ->).
+    destruct (IH _ _ _ Hys) as (ra & c1 & rb & Ha & Hb & ->).
+    exists (y :: ra), c1, rb. splits; [|exact Hb | reflexivity].
+    cbn [mapM]. unfold IR.bind, IR.ret. rewrite Hy, Ha. reflexivity.
 Qed.
+
+Lemma mapM_ext_in {A B} (f g : A -> M B) l : (forall x, In x l -> f x = g x) -> forall c, mapM f l c = mapM g l c.
+Proof.
+  induction l as [|x l IH]; intros H c; [reflexivity|]. cbn [mapM]. unfold IR.bind.
+  rewrite (H x (or_introl eq_refl)). destruct (g x c) as [[y c1]| |]; [|reflexivity|reflexivity].
+  rewrite IH by (intros z Hz; apply H; right; exact Hz). reflexivity.
+Qed.
+
+Lemma compile_plain n s : is_plain_def s = true -> compile_stmt n s = statement (S n) s 0.
+Proof. destruct s; try discriminate. intros _. reflexivity. Qed.
 
 (* the program's statements, run in any Lua state that satisfies the preamble invariant, has printed nothing
    and has no global named V<n> *)
@@ -357,45 +477,64 @@ Lemma program_sim k r code n res st0 :
   lua_result st0 code res.
 Proof.
   intros Hlin0 Hout0 HnoV Hfrag Hlow Hrun Hgood. subst res.
-  destruct (frag_inv k r Hfrag) as (name & pv & kd & t & sp & nm & sv & kd' & t' & fname & ret & body & pure & fsp & dsp & sc' &
-                                    Hstmts & -> & Hstart & Hne & Hpvb & Hsvb & Hfb).
+  destruct (frag_inv k r Hfrag) as (name & pv & kd & t & sp & gs & nm & sv & kd' & t' & fname & ret & body & pure & fsp & dsp & scg & sc' &
+                                    Hstmts & -> & Hstart & Hne & Hpvb & Hsvb & Hplain & Hfg & Hfb).
   set (bound := N.of_nat (length (Resolved.r_vars r)) + 1) in *.
   (* the lowering *)
   unfold lower in Hlow. rewrite Hstmts, Hstart in Hlow. fold bound in Hlow.
-  destruct n as [|f]; [cbn in Hlow; discriminate|].
-  cbn [mapM compile_stmt] in Hlow. rewrite definition_fun in Hlow. cbn [map] in Hlow.
   match type of Hlow with match ?m bound with _ => _ end = _ => destruct (m bound) as [[code0 cend]| |] eqn:Hm; [|discriminate|discriminate] end.
   inversion Hlow; subst code0. clear Hlow.
-  repeat (match goal with
-          | H : IR.bind _ _ _ = Ok _ |- _ => mon H
-          | H : IR.ret _ _ = Ok _ |- _ => apply ret_ok in H as [? ?]; subst
-          end; fresh_all).
-  cbn [concat app] in *. rewrite app_nil_r in *.
-  rename a3 into bc. rename c into cb. rename Hm3 into Hbody.
+  mon Hm. fresh_all.
+  apply mapM_cons_ok in Hm0 as (y0 & c1 & ys & Hy0 & Hys & ->).
+  cbn [compile_stmt] in Hy0. apply ret_ok in Hy0 as [<- <-].
+  apply mapM_app_ok in Hys as (csg & cg & cst & Hmg & Hmst & ->).
+  apply mapM_cons_ok in Hmst as (cdef & c2 & ynil & Hdef & Hnil & ->). apply mapM_nil_ok in Hnil as [-> ->].
+  cbn [compile_stmt] in Hdef.
+  destruct n as [|f]; [discriminate Hdef|].
+  rewrite definition_fun in Hdef. cbn [map] in Hdef. mon Hdef. fresh_all.
+  rename a0 into bc. rename c2 into cb. rename Hm0 into Hbody.
+  rewrite (mapM_ext_in (compile_stmt (S f)) (fun s => statement (S (S f)) s 0) gs) in Hmg
+    by (intros x Hx; apply compile_plain; rewrite forallb_forall in Hplain; apply Hplain; exact Hx).
   (* the reference interpreter *)
-  destruct f as [|f']; [unfold SyltSem.run in Hgood; rewrite Hstmts in Hgood; cbn in Hgood; destruct Hgood|].
-  rewrite (run_frag_eq r pv sv kd t sp nm kd' t' fname ret body pure fsp dsp f' Hstmts Hstart) in *.
-  set (code := IExternal pv "print" :: IFunction sv [] :: (bc ++ [IEnd]) ++ [ICall cb sv []]).
+  destruct f as [|f'].
+  { rewrite (run_fuel1 r pv sv kd t sp gs nm kd' t' fname ret body pure fsp dsp Hstmts Hstart Hplain) in Hgood. destruct Hgood. }
+  rewrite (run_frag_eq r pv sv kd t sp gs nm kd' t' fname ret body pure fsp dsp f' Hstmts Hstart) in *.
+  set (code := concat ([IExternal pv "print"] :: csg ++ [IFunction sv [] :: bc ++ [IEnd]]) ++ [ICall cb sv []]).
+  assert (Hcodeq : code = IExternal pv "print" :: concat csg ++ (IFunction sv [] :: bc ++ [IEnd]) ++ [ICall cb sv []]).
+  { unfold code. cbn [concat app]. rewrite concat_app. cbn [concat]. rewrite app_nil_r, <- app_assoc. reflexivity. }
   set (u := count_usages code).
   assert (Hucode : ucovers u code) by apply count_usages_covers.
+  assert (Hug : ucovers u (concat csg)).
+  { eapply ucovers_incl; [|exact Hucode]. intros x Hx. rewrite Hcodeq. right. apply in_or_app. left. exact Hx. }
   assert (Hubc : ucovers u bc).
-  { eapply ucovers_incl; [|exact Hucode]. intros x Hx. unfold code. right. right. apply in_or_app. left. apply in_or_app. left. exact Hx. }
-  (* the emitted chunk *)
-  destruct (L_fbody pv sv bound u (S f') k body 0 (bound + 1) bc cb [] sc' [] Hbody Hfb) as (b0 & l0 & Hs0).
-  pose proof Hs0 as (Hem0 & Hcb & Hfr0 & Hnl0).
-  assert (Hl0cb : alut_get l0 cb = None) by (rewrite Hfr0 by lia; reflexivity).
-  assert (Hl0sv : alut_get l0 sv = None) by (rewrite Hfr0 by lia; reflexivity).
-  set (prog := fun b : block => [SAssign [EVar (fmt_var pv)] [EVar "print"]; SLocalFun (fmt_var sv) [] b;
-                                SLocal [fmt_var cb] [ECall (EVar (fmt_var sv)) []]]).
-  assert (Hemit : forall b l', Emits u [] bc b l' -> alut_get l' cb = None -> alut_get l' sv = None -> emit_ast code = prog b).
-  { intros b l' Hem Hc Hs. apply (emit_ast_Emits code (prog b) l'). fold u. unfold code, prog.
-    rewrite <- app_assoc. cbn [app].
-    apply (Em_op u [] (IExternal pv "print") _ _ l' eq_refl). cbn [agen_one snd].
-    apply (Em_fun u [] sv [] bc b l' [ICall cb sv []] _ l' Hem).
-    pose proof (Em_op u l' (ICall cb sv []) [] [] l' eq_refl (Em_nil u l')) as H.
-    cbn [agen_one fst snd map app] in H. unfold aname, aexpand in H. rewrite Hc, Hs in H. exact H. }
-  pose proof (Hemit b0 l0 Hem0 Hl0cb Hl0sv) as Hcode0.
-  (* the Lua run up to the call of start *)
+  { eapply ucovers_incl; [|exact Hucode]. intros x Hx. rewrite Hcodeq. right. apply in_or_app. right. apply in_or_app. left.
+    right. apply in_or_app. left. exact Hx. }
+  (* the ranges of temporaries: globals in [bound, cg), the body of start in [cg + 1, cb) *)
+  destruct (L_stmts_all pv sv bound u (S (S (S f'))) k gs 0 bound csg cg [] scg [] Hmg Hfg) as (_ & _ & (_ & Hbcg & _)).
+  assert (HLf : forall l0, exists b l', cshape u l0 bc b l' (cg + 1) cb)
+    by (intros l0; eapply (L_fbody pv sv bound u); eassumption).
+  destruct (HLf []) as (_ & _ & (_ & Hcgcb & _)).
+  set (prog := fun (bg b : block) => SAssign [EVar (fmt_var pv)] [EVar "print"] :: bg ++
+                 [SLocalFun (fmt_var sv) [] b; SLocal [fmt_var cb] [ECall (EVar (fmt_var sv)) []]]).
+  assert (Hemit : forall bg lg b l', cshape u [] (concat csg) bg lg bound cg -> cshape u lg bc b l' (cg + 1) cb ->
+            emit_ast code = prog bg b /\ nolabel (prog bg b)).
+  { intros bg lg b l' (Hemg & _ & Hfrg & Hnlg) (Hemb & _ & Hfrb & Hnlb).
+    assert (Hlgsv : alut_get lg sv = None) by (rewrite Hfrg by lia; reflexivity).
+    assert (Hl'cb : alut_get l' cb = None) by (rewrite Hfrb by lia; rewrite Hfrg by lia; reflexivity).
+    assert (Hl'sv : alut_get l' sv = None) by (rewrite Hfrb by lia; exact Hlgsv).
+    split.
+    - apply (emit_ast_Emits code (prog bg b) l'). fold u. rewrite Hcodeq. unfold prog.
+      apply (Em_op u [] (IExternal pv "print") _ _ l' eq_refl). cbn [agen_one snd].
+      eapply Emits_app; [exact Hemg|].
+      pose proof (Em_op u l' (ICall cb sv []) [] [] l' eq_refl (Em_nil u l')) as H.
+      cbn [agen_one fst snd map app] in H. unfold aname, aexpand in H. rewrite Hl'cb, Hl'sv in H.
+      pose proof (Em_fun u lg sv [] bc b l' [ICall cb sv []] _ l' Hemb H) as Hf.
+      unfold aname in Hf. rewrite Hlgsv in Hf. cbn [map] in Hf.
+      replace ((IFunction sv [] :: bc ++ [IEnd]) ++ [ICall cb sv []]) with (IFunction sv [] :: bc ++ [IEnd; ICall cb sv []])
+        by (cbn [app]; rewrite <- app_assoc; reflexivity).
+      exact Hf.
+    - unfold prog. constructor; [reflexivity|]. apply nolabel_app; [exact Hnlg | repeat constructor]. }
+  (* the Lua run: V<pv> = print *)
   set (st1 := raw_set_in st0 globals_id (VStr (fmt_var pv)) (VBuiltin BPrint)).
   assert (Hx1 : Exec PLeaf (SAssign [EVar (fmt_var pv)] [EVar "print"]) st0 (ROk (PLeaf, SigNormal) st1)).
   { apply (Exec_assign_global PLeaf (fmt_var pv) (EVar "print") st0 [VBuiltin BPrint] st0).
@@ -405,76 +544,88 @@ Proof.
     - apply HnoV.
     - apply (g_nometa _ (li_genv _ Hlin0)). }
   assert (Hlin1 : linv st1) by (apply linv_set_global; exact Hlin0).
-  set (csv := s_ncell st1).
-  set (E1 := sset (fmt_var sv) csv (PLeaf : env)).
-  set (fid := s_nclo st1).
-  set (st2 := set_cell (snd (alloc_closure (snd (alloc_cell st1 VNil)) (mkClosure E1 [] b0))) csv (VFun fid)).
-  assert (Hx2 : Exec PLeaf (SLocalFun (fmt_var sv) [] b0) st1 (ROk (E1, SigNormal) st2)) by apply Exec_localfun.
-  assert (Hclo : pget fid (s_clos st2) = Some (mkClosure E1 [] b0)).
-  { unfold st2, set_cell, alloc_closure, alloc_cell. cbn [snd s_clos s_nclo]. apply pget_pset_same. }
-  assert (Hcell : get_cell st2 csv = VFun fid) by (unfold st2; apply get_cell_set_same).
-  assert (Hlin2 : linv st2).
-  { destruct Hlin1 as [Hd Hg [Hc] Hn]. constructor.
-    - exact Hd.
-    - exact Hg.
-    - constructor. unfold st2, set_cell, alloc_closure, alloc_cell. cbn [snd s_clos s_nclo].
-      rewrite pget_pset_other; [exact Hc | lia].
-    - unfold st2, set_cell, alloc_closure, alloc_cell. cbn [snd s_nclo]. lia. }
-  assert (Hout2 : s_out st2 = []) by exact Hout0.
-  assert (HE1sv : sget (fmt_var sv) E1 = Some csv) by apply sget_sset_same.
-  assert (HE1o : forall t, t <> sv -> sget (fmt_var t) E1 = None).
-  { intros t0 Ht. unfold E1. rewrite sget_sset_var by exact Ht. apply pre_ncell_env. }
-  assert (Hwf2 : wfenv E1 st2).
-  { constructor.
-    - intros x p H. destruct (string_dec x (fmt_var sv)) as [->|Hn]; [eauto|].
-      unfold E1 in H. rewrite sget_sset_other in H by exact Hn. rewrite pre_ncell_env in H. discriminate.
-    - intros x y p Hx Hy.
-      destruct (string_dec x (fmt_var sv)) as [->|Hn1]; destruct (string_dec y (fmt_var sv)) as [->|Hn2]; auto;
-        unfold E1 in *; rewrite ?sget_sset_other in * by assumption; rewrite ?pre_ncell_env in *; discriminate.
-    - intros x p H. destruct (string_dec x (fmt_var sv)) as [->|Hn].
-      + rewrite HE1sv in H. inversion H; subst p. unfold st2, set_cell, alloc_closure, alloc_cell, csv. cbn [snd s_ncell]. lia.
-      + unfold E1 in H. rewrite sget_sset_other in H by exact Hn. rewrite pre_ncell_env in H. discriminate. }
-  assert (Hrel2 : rel pv bound [] (frag_env pv sv) (frag_state pv sv body) E1 st2).
+  assert (Hrel0 : rel pv bound [] [(pv, 0%nat)] print_state PLeaf st1).
   { constructor.
     - intros v [].
     - intros v [].
     - intros v1 v2 c [].
-    - exists 0%nat. unfold frag_env. cbn [SyltSem.lookup]. destruct (N.eqb_spec sv pv) as [Heq|_]; [congruence|]. rewrite N.eqb_refl.
-      splits; [reflexivity | reflexivity | intros v []].
+    - exists 0%nat. cbn [SyltSem.lookup]. rewrite N.eqb_refl. splits; [reflexivity | reflexivity | intros v []].
     - exact Hpvb.
-    - apply HE1o. exact Hne.
-    - unfold st2, st1. eapply glob_frame; [|apply glob_set_global]. reflexivity.
-    - exact Hwf2.
-    - rewrite Hout2. reflexivity.
-    - exact Hlin2. }
-  assert (Hctx2 : ctx_ok bound [] [] E1 (bound + 1) cb).
-  { constructor; [lia | intros t0 _; reflexivity | intros t0 [] | intros t0 Ht; apply HE1o; lia]. }
-  destruct (SyltSem.block_value (S f') (frag_env pv sv) body (frag_state pv sv body)) as [rb stb] eqn:Hbv.
+    - apply pre_ncell_env.
+    - apply glob_set_global.
+    - constructor.
+      + intros x p H. rewrite pre_ncell_env in H. discriminate.
+      + intros x y p H _. rewrite pre_ncell_env in H. discriminate.
+      + intros x p H. rewrite pre_ncell_env in H. discriminate.
+    - exact (eq_sym Hout0).
+    - exact Hlin1. }
+  assert (Hctx0 : ctx_ok bound [] [] PLeaf bound cg).
+  { constructor; [lia | intros t0 _; reflexivity | intros t0 [] | intros t0 _; apply pre_ncell_env]. }
+  (* the global definitions *)
+  destruct (SyltSem.run_outer (S (S f')) [(pv, 0%nat)] gs print_state) as [rg stg] eqn:Hrg.
+  assert (Hintg : interesting rg).
+  { destruct rg as [eg|o|cc]; [exact I | | cbn in Hgood; destruct Hgood]. cbn in Hgood. destruct o; try destruct Hgood; try exact I.
+    exfalso. eapply run_outer_not_done. exact Hrg. }
+  destruct (globals_sim pv sv bound u (S (S f')) (S (S (S f'))) gs k 0 bound csg cg _ _ rg stg [] scg [] PLeaf st1 []
+              Hrg Hmg Hplain Hfg Hug Hctx0 Hrel0 Hintg) as (bg & lg & Hsg & Hpostg).
+  destruct rg as [eg|o|cc]; [| |cbn in Hgood; destruct Hgood].
+  2: { (* a global definition fails *)
+       cbn [stmt_post] in Hpostg. destruct Hpostg as (rl & Hxg & (ev & stL' & -> & Htr)).
+       destruct (HLf lg) as (b & l' & Hsb). destruct (Hemit bg lg b l' Hsg Hsb) as (Hcode & Hnlp).
+       unfold lua_result. fold code. rewrite Hcode.
+       exists (RErr ev stL'), stL'. splits.
+       - apply ExecBlock_of_ExecS; [|exact Hnlp | intros []].
+         unfold prog. eapply XS_cons; [exact Hx1|]. apply ExecS_app_stop; [exact Hxg | intros []].
+       - reflexivity.
+       - cbn [SyltSem.r_trace]. rewrite <- Htr. reflexivity.
+       - cbn [SyltSem.r_final]. cbn in Hgood. destruct o; try destruct Hgood; eauto.
+         exfalso. eapply run_outer_not_done. exact Hrg. }
+  cbn [stmt_post] in Hpostg. destruct Hpostg as (Eg & stLg & Fg & Hokg & Hseg & Hincg).
+  pose proof Hokg as (Hxg & Hfrg & Hrelg & Hng & Hkg).
+  assert (Hctxg : ctx_ok bound lg Fg Eg cg cb).
+  { assert (Hctx0' : ctx_ok bound [] [] PLeaf bound cb).
+    { constructor; [lia | intros t0 _; reflexivity | intros t0 [] | intros t0 _; apply pre_ncell_env]. }
+    eapply (ctx_afterS pv bound u); eassumption. }
+  (* local function V<sv> *)
+  set (b0 := estack u lg [] [] bc).
+  set (csv := s_ncell stLg).
+  set (E1 := sset (fmt_var sv) csv Eg).
+  set (fid := s_nclo stLg).
+  set (st2 := set_cell (snd (alloc_closure (snd (alloc_cell stLg VNil)) (mkClosure E1 [] b0))) csv (VFun fid)).
+  assert (Hx2 : Exec Eg (SLocalFun (fmt_var sv) [] b0) stLg (ROk (E1, SigNormal) st2)) by apply Exec_localfun.
+  assert (Hclo : pget fid (s_clos st2) = Some (mkClosure E1 [] b0)).
+  { unfold st2, set_cell, alloc_closure, alloc_cell. cbn [snd s_clos s_nclo]. apply pget_pset_same. }
+  assert (Hcell : get_cell st2 csv = VFun fid) by (unfold st2; apply get_cell_set_same).
+  assert (Hsvg : ~ In sv scg).
+  { intros Hin. destruct (frag_stmts_scope pv sv bound gs k [] scg Hfg sv Hin) as [[]|H]. apply H. reflexivity. }
+  assert (Hrel2 : rel pv bound scg (start_env sv eg stg) (start_state sv body eg stg) E1 st2).
+  { apply (rel_define_fun pv sv bound scg eg stg Eg stLg body b0 Hrelg Hsvg); [intros Heq; apply Hne; symmetry; exact Heq | exact Hsvb]. }
+  assert (HE1sv : sget (fmt_var sv) E1 = Some csv) by apply sget_sset_same.
+  assert (Hctx2 : ctx_ok bound lg Fg E1 (cg + 1) cb).
+  { destruct Hctxg as [Hb Hl HF HE]. constructor; [lia | eapply lut_ok_sub; [exact Hl | lia | lia] | eapply F_out_sub; [exact HF | lia | lia] |].
+    intros t0 Ht. unfold E1. rewrite sget_sset_var by lia. apply HE. lia. }
+  destruct (SyltSem.block_value (S f') (start_env sv eg stg) body (start_state sv body eg stg)) as [rb stb] eqn:Hbv.
   assert (Hna : noab rb).
   { destruct rb as [v|o|[| |v]]; try exact I.
     - cbn in Hgood. destruct Hgood.
     - cbn in Hgood. destruct Hgood.
-    - exact (proj2 (proj2 (proj2 (NR_all pv sv bound (S f')))) k [] sc' _ body _ _ stb Hfb Hbv). }
+    - exact (proj2 (proj2 (proj2 (NR_all pv sv bound (S f')))) k scg sc' _ body _ _ stb Hfb Hbv). }
   assert (Hint : interesting rb).
   { destruct rb as [v|o|cc]; [exact I | | destruct Hna]. cbn in Hgood. destruct o; try destruct Hgood; try exact I.
     exfalso. eapply SemSane.block_value_not_done. exact Hbv. }
-  destruct (fbody_sim pv sv bound u (S f') (S f') k body 0 (bound + 1) bc cb _ _ rb stb [] sc' [] E1 st2 [] Hbv Hbody Hfb Hubc Hctx2 Hrel2 Hint Hna)
+  destruct (fbody_sim pv sv bound u (S f') (S f') k body 0 (cg + 1) bc cb _ _ rb stb scg sc' lg E1 st2 Fg Hbv Hbody Hfb Hubc Hctx2 Hrel2 Hint Hna)
     as (b1 & l1 & Hs1 & Hpost).
-  pose proof Hs1 as (Hem1 & _ & Hfr1 & Hnl1).
-  assert (Hb01 : b1 = b0).
-  { assert (H : prog b1 = prog b0).
-    { rewrite <- Hcode0. symmetry. apply (Hemit b1 l1 Hem1); rewrite Hfr1 by lia; reflexivity. }
-    unfold prog in H. inversion H. reflexivity. }
-  subst b1.
-  unfold lua_result. fold code. rewrite Hcode0.
-  assert (Hnlp : nolabel (prog b0)) by (unfold prog; repeat constructor).
+  assert (Hb01 : b1 = b0) by (unfold b0; apply (Emits_block_fun u lg bc b1 l1); apply Hs1).
+  subst b1. pose proof Hs1 as (_ & _ & _ & Hnl0).
+  destruct (Hemit bg lg b0 l1 Hsg Hs1) as (Hcode & Hnlp).
+  unfold lua_result. fold code. rewrite Hcode.
   assert (Hev_sv : Eval E1 (EVar (fmt_var sv)) st2 (ROk (VFun fid) st2)).
   { rewrite <- Hcell. apply Eval_local. exact HE1sv. }
   destruct rb as [v|o|cc]; [| |destruct Hna].
   - (* start returns *)
-    destruct Hpost as (E' & sg & stL' & Hxb & Hsg & Htr).
+    destruct Hpost as (E' & sg & stL' & Hxb & Hsg' & Htr).
     assert (Hcall : exists vs, Call (VFun fid) [] st2 (ROk vs stL')).
-    { destruct Hsg as [->|[vs ->]].
+    { destruct Hsg' as [->|[vs ->]].
       - exists []. eapply (Call_closure_normal fid (mkClosure E1 [] b0)); [exact Hclo | reflexivity |].
         cbn [c_body]. apply ExecBlock_of_ExecS; [exact Hxb | exact Hnl0 | intros []].
       - exists vs. eapply (Call_closure fid (mkClosure E1 [] b0)); [exact Hclo | reflexivity |].
@@ -485,7 +636,8 @@ Proof.
     set (Ef := fst (bind_locals E1 [fmt_var cb] vs stL')) in *. set (stf := snd (bind_locals E1 [fmt_var cb] vs stL')) in *.
     exists (ROk (Ef, SigNormal) stf), stf. splits.
     + apply ExecBlock_of_ExecS; [|exact Hnlp | intros []].
-      unfold prog. eapply XS_cons; [exact Hx1|]. eapply XS_cons; [exact Hx2|]. eapply XS_cons; [exact Hx3 | apply XS_nil].
+      unfold prog. eapply XS_cons; [exact Hx1|]. eapply ExecS_app; [exact Hxg|].
+      eapply XS_cons; [exact Hx2|]. eapply XS_cons; [exact Hx3 | apply XS_nil].
     + reflexivity.
     + cbn [SyltSem.r_trace]. unfold stf. rewrite bind_locals_one. cbn [snd alloc_cell s_out]. rewrite <- Htr. reflexivity.
     + cbn [SyltSem.r_final]. eauto.
@@ -499,7 +651,8 @@ Proof.
       eapply EvalCall_intro; [exact Hev_sv | apply EvalList_nil | exact Hcall]. }
     exists (RErr ev stL'), stL'. splits.
     + apply ExecBlock_of_ExecS; [|exact Hnlp | intros []].
-      unfold prog. eapply XS_cons; [exact Hx1|]. eapply XS_cons; [exact Hx2|]. apply XS_stop; [exact Hx3 | intros []].
+      unfold prog. eapply XS_cons; [exact Hx1|]. eapply ExecS_app; [exact Hxg|].
+      eapply XS_cons; [exact Hx2|]. apply XS_stop; [exact Hx3 | intros []].
     + reflexivity.
     + cbn [SyltSem.r_trace]. rewrite <- Htr. reflexivity.
     + cbn [SyltSem.r_final]. cbn in Hgood. destruct o; try destruct Hgood; eauto.
@@ -526,4 +679,3 @@ Proof.
   - destruct Hfin as [v ->]. clear Hst.
     cbn [o_trace o_final same_final]. split; [|exact I]. unfold rev'. rewrite <- rev_alt. exact Htr.
 Qed.
-
